@@ -528,14 +528,18 @@ def {}():
                     top._dag.all_constraints.add( (v, blk) )
 
             else:
-              if v in method_blks:
+              # The blocks that call v or any method in the same
+              # equivalence class as v (M(v) == M(vv)) invoke method_v
+
+              for vv in ( equiv[v] if v in equiv else (v,) ):
+                if vv not in method_blks: continue
                 # TODO Now I'm leaving incomplete dependency chain because I didn't close the circuit loop.
                 # E.g. I do port.wr() somewhere in __main__ to write to a port.
 
                 # Find total constraint (vb < blk) by vb=method_v < method_u=blk
                 # INVALID if we have explicit constraint (blk < method_v) or (method_u < vb)
 
-                v_blks = method_blks[ v ]
+                v_blks = method_blks[ vv ]
                 for vb in v_blks:
                   if vb not in succ[u]:
                     for blk in assoc_blks:
@@ -566,7 +570,10 @@ def {}():
                     top._dag.all_constraints.add( (blk, v) )
 
             else:
-              if v in method_blks:
+              # See above: callers of the methods in v's equivalence class
+
+              for vv in ( equiv[v] if v in equiv else (v,) ):
+                if vv not in method_blks: continue
                 # assert v in method_blks, "Incomplete elaboration, something is wrong! %s" % hex(v)
                 # TODO Now I'm leaving incomplete dependency chain because I didn't close the circuit loop.
                 # E.g. I do port.wr() somewhere in __main__ to write to a port.
@@ -574,7 +581,7 @@ def {}():
                 # Find total constraint (blk < vb) by blk=method_u < method_v=vb
                 # INVALID if we have explicit constraint (vb < method_u) or (method_v < blk)
 
-                v_blks = method_blks[ v ]
+                v_blks = method_blks[ vv ]
                 for vb in v_blks:
                   if not vb in pred[u]:
                     for blk in assoc_blks:
